@@ -78,6 +78,10 @@ Section Bind.
              then aupdate (aset VKW (BD (extra_kw s kwargs)) res2) (bvs (named_kw s kwargs))
              else aupdate res2 (bvs kwargs)).
 
+  (* the Python entry point getcallargs(function, *args, **kwargs) cannot take a keyword named function *)
+  Definition lib_getcallargs_py (s : sig) (c : call) : lres (amap bval) :=
+    if inl "function" (map fst (snd c)) then LErr "TypeError" else lib_getcallargs s c.
+
   (* ---- call_with_callargs: the (args, kwargs) it finally passes to the function *)
   Definition bv_val (b : bval) : option V := match b with BV v => Some v | _ => None end.
   Definition call_with_callargs (s : sig) (ca : amap bval) : call :=
@@ -138,16 +142,32 @@ Section Behave.
   (* kwargs_support: keywords not among getargs(function) are dropped *)
   Definition kwargs_support (s : sig V) (f : call V -> outcome) (c : call V) : outcome :=
     f (fst c, named_kw s (snd c)).
-  (* cache on a single call, loops on a non-container first argument, pd2np on non-pandas input: f itself *)
+  (* loops on a non-container first argument hands the call on, except that its own control keyword axis is popped
+     whenever a first argument is present (positionally, or by the name of the first parameter, which is then itself
+     re-passed positionally: the same binding) - a parameter of f that happens to be called axis never sees its keyword *)
+  Definition loops_call (s : sig V) (c : call V) : call V :=
+    match fst c, pos s with
+    | [], [] => c
+    | [], top :: _ => if String.eqb top "axis" then c else if ahas top (snd c) then (fst c, adel "axis" (snd c)) else c
+    | _ :: _, _ => (fst c, adel "axis" (snd c))
+    end.
+  (* cache on a single call, pd2np on non-pandas input: f itself *)
   Definition apply_tag (s : sig V) (t : tag) (f : call V -> outcome) : call V -> outcome :=
     match t with
     | TTry => try_value none f
     | TBack => try_back s f
     | TKws => kwargs_support s f
-    | TCache | TLoop | TPd => f
+    | TLoop => fun c => f (loops_call s c)
+    | TCache | TPd => f
     end.
   Definition apply_chain (s : sig V) (chain : list tag) (f : call V -> outcome) : call V -> outcome :=
     fold_right (apply_tag s) f chain.
+  (* the Python entry point of a wrapper stack: wrapper.__call__(self, *args, **kwargs) cannot take a keyword named self *)
+  Definition call_stack (s : sig V) (chain : list tag) (f : call V -> outcome) (c : call V) : outcome :=
+    match chain with
+    | [] => f c
+    | _ => if inl "self" (map fst (snd c)) then LErr "TypeError" else apply_chain s chain f c
+    end.
 End Behave.
 
 (* try_value over a history of calls: the caller mutates every fallback it is handed.  [copying] = the wrapper returns
